@@ -1,142 +1,283 @@
 /-
   Property C15, fixpnt clause — `fixpnt<n2,r2> = fixpnt<n1,r1>` "yields the target value nearest to the source value".
 
-  The theorems are about the limb-list model `UVerif.ConvFixpnt.resize w n1 r1 n2 r2 src prev` (lean/UVerif/Model/ConvFixpnt.lean,
-  transcribed from the size adapter fixpnt_impl.hpp:172-211 on top of the blockbinary model of lean/UVerif/Model/Limbs.lean) and hold
+  The theorems are about the limb-list model `UVerif.ConvFixpnt.resize w n1 r1 n2 r2 sat src prev` (lean/UVerif/Model/ConvFixpnt.lean,
+  transcribed from the size adapter fixpnt_impl.hpp:172-230 on top of the blockbinary model of lean/UVerif/Model/Limbs.lean) and hold
   for EVERY pair of sizes, EVERY limb width `w` allowed by blockbinary's static_assert (`C15_fixpnt_Supported`).  Right-hand sides
   are the executable specification `UVerif.ConvFixpntSpec.resize n1 r1 n2 r2 sat p`: round-half-even of value·2^r2, then
   wrap (sat = false, Modulo) or clamp (sat = true, Saturate).
 
-  What holds of the pinned code:
-    * widening with the SAME number of fraction bits is sign extension: the value is preserved (both modes);
-    * narrowing (n2 < n1) with FEWER fraction bits (r2 < r1, r1 − r2 < n1) is correctly rounded, ties to even, then WRAPPED.
-  What does not (D12 and neighbours, counterexample theorems below):
-    * widening with more fraction bits copies the raw bits (the radix point moves: 1.5 becomes 0.1875);
-    * narrowing to at least as many fraction bits does nothing at all (the target keeps its previous content);
-    * narrowing with r1 − r2 = n1 shifts by the full width (`>>=` returns 0 for every value) and then increments;
-    * a Saturate target never clamps.
+  The adapter was repaired by four commits (D12 and its neighbours):
+    * "fix: fixpnt size adapter must align the radix point when the target is at least as wide (rounding code was disabled, no upshift)",
+    * "fix: fixpnt size adapter assigned nothing when narrowing to at least as many fraction bits",
+    * "fix: fixpnt size adapter dropping every source bit turned small negative values into +1 ulp (>>= by the full width loses the sign)",
+    * "fix: fixpnt size adapter never saturated: a Saturate target wrapped values that do not fit",
+  and the full property `C15_fixpnt_resize_full` is now a THEOREM (it was a `def … : Prop` with a proved negation): for every pair of
+  configurations and both arithmetic modes the adapter returns the specified encoding.  The former counterexample theorems
+  (`…_D12_counterexample`, `…_widen_rawcopy_…`, `…_narrow_noop_…`, `…_narrow_fullshift_…`, `…_saturate_wraps_…`) are restated as
+  the positive statements at the same witnesses (`…_witness`).
 -/
 import UVerifProofs.Lemmas.ConvFixpntResize
 
 open UVerif UVerif.Limbs UVerif.ConvFixpnt
 
-/-- limb widths covered for a source of `m` bits: every width, `uint64_t` only when `m` bits fit one block -/
+/-- limb widths covered for a blockbinary of `m` bits: every width, `uint64_t` only when `m` bits fit one block -/
 def C15_fixpnt_Supported (w m : Nat) : Prop := 0 < w ∧ Fixpnt.Ok w m
 
 example : C15_fixpnt_Supported 8 40 := ⟨by decide, Or.inl (by decide)⟩
 example : C15_fixpnt_Supported 64 64 := ⟨by decide, Or.inr (by decide)⟩
 
+/-- the widest blockbinary the adapter instantiates besides source and target: `rawbb` of the rounding branch (src_nbits, one bit
+    more when every source bit is dropped) and the comparison width src_nbits + max(rbits − src_rbits, 0) of the Saturate branch -/
+def C15_fixpnt_width (n1 r1 r2 : Nat) : Nat := wideWidth n1 r1 r2
+
+example : C15_fixpnt_width 12 6 2 = 12 ∧ C15_fixpnt_width 8 8 0 = 9 ∧ C15_fixpnt_width 4 1 4 = 7 := by decide
+
 variable {w n1 n2 r r1 r2 : Nat} {src : List Nat}
+
+/-- THE FULL PROPERTY (was `def C15_fixpnt_resize_full : Prop` with `C15_fixpnt_resize_D12_counterexample : ¬ …`): for every pair of
+    configurations, every supported limb width and BOTH arithmetic modes the adapter returns a canonical encoding, the specified one:
+    the source value rounded to the nearest multiple of 2^-r2 (ties to even), wrapped (Modulo) or clamped (Saturate). -/
+theorem C15_fixpnt_resize_full :
+    ∀ (w n1 r1 n2 r2 : Nat) (sat : Bool) (src prev : List Nat),
+      C15_fixpnt_Supported w (C15_fixpnt_width n1 r1 r2) → 0 < n1 → 0 < n2 → r1 ≤ n1 → r2 ≤ n2 → Canon w n1 src → Canon w n2 prev →
+      Canon w n2 (resize w n1 r1 n2 r2 sat src prev) ∧
+      toNat w (resize w n1 r1 n2 r2 sat src prev) = ConvFixpntSpec.resize n1 r1 n2 r2 sat (toNat w src) := by
+  intro w n1 r1 n2 r2 sat src prev h hn1 hn2 hr1 _ hs _
+  exact resize_spec h.1 hn1 hn2 (by omega) h.2 sat hs prev
+
+-- the hypotheses are satisfiable on every kind of pair: widening with more fraction bits, narrowing with as many, all bits dropped
+example : C15_fixpnt_Supported 8 (C15_fixpnt_width 4 1 4) ∧ Canon 8 4 [0x3] ∧ Canon 8 8 [0xff] := ⟨⟨by decide, Or.inl (by decide)⟩, by decide, by decide⟩
+example : C15_fixpnt_Supported 16 (C15_fixpnt_width 16 16 0) ∧ Canon 16 16 [0xe000] ∧ Canon 16 5 [0x1f] := ⟨⟨by decide, Or.inl (by decide)⟩, by decide, by decide⟩
+
+/-- the target's previous content is never read (it survived the narrowing no-op of the unrepaired adapter) -/
+theorem C15_fixpnt_resize_prev_irrelevant (sat : Bool) (prev prev' : List Nat) :
+    resize w n1 r1 n2 r2 sat src prev = resize w n1 r1 n2 r2 sat src prev' := rfl
 
 /-- widening, same rbits: `_block = a.bits()` sign-extends, the explicit sign-extension loop repeats it.  The result is canonical
     and is the specified encoding in BOTH arithmetic modes (the value is in range, so wrap = clamp = identity).
     No limb-width guard and no bound on `r` are needed. -/
 theorem C15_fixpnt_resize_widen_same_rbits (hw : 0 < w) (hn1 : 0 < n1) (hle : n1 ≤ n2) (hs : Canon w n1 src) (sat : Bool)
     (prev : List Nat) :
-    Canon w n2 (resize w n1 r n2 r src prev) ∧
-    toNat w (resize w n1 r n2 r src prev) = ConvFixpntSpec.resize n1 r n2 r sat (toNat w src) := by
-  obtain ⟨hc, hv⟩ := resize_widen_spec r hw hn1 hle hs prev
-  exact ⟨hc, by rw [hv, spec_widen_same r hn1 hle]⟩
+    Canon w n2 (resize w n1 r n2 r sat src prev) ∧
+    toNat w (resize w n1 r n2 r sat src prev) = ConvFixpntSpec.resize n1 r n2 r sat (toNat w src) := by
+  have e : resize w n1 r n2 r sat src prev = resizeM w n1 r n2 r src := by
+    unfold resize
+    simp only
+    rw [if_neg (by simp; omega)]
+  obtain ⟨hc, hv⟩ := resize_up_spec (r1 := r) (r2 := r) hw hn1 (by omega : 0 < n2) (le_refl r) hs
+  rw [e]
+  refine ⟨hc, ?_⟩
+  rw [hv, spec_widen_same r hn1 hle, Nat.sub_self, Nat.pow_zero, Nat.cast_one, mul_one]
 
 -- fixpnt<12,4,·,uint8_t> −1.5 (0xfe8) → fixpnt<20,4,·,uint8_t>: 0xfffe8, three limbs
-example : Canon 8 12 [0xe8, 0x0f] ∧ resize 8 12 4 20 4 [0xe8, 0x0f] [0, 0, 0] = [0xe8, 0xff, 0x0f] := by decide
+example : Canon 8 12 [0xe8, 0x0f] ∧ resize 8 12 4 20 4 true [0xe8, 0x0f] [0, 0, 0] = [0xe8, 0xff, 0x0f] := by decide
 
-/-- … and therefore the VALUE is preserved by a widening with the same rbits -/
-theorem C15_fixpnt_resize_widen_same_rbits_value (hw : 0 < w) (hn1 : 0 < n1) (hle : n1 ≤ n2) (hs : Canon w n1 src)
-    (prev : List Nat) :
-    ConvFixpntSpec.value n2 r (toNat w (resize w n1 r n2 r src prev)) = ConvFixpntSpec.value n1 r (toNat w src) := by
-  rw [(resize_widen_spec r hw hn1 hle hs prev).2]
+/-- a widening that has room for the additional fraction bits (n1 + (r2 − r1) ≤ n2, r1 ≤ r2) keeps the VALUE, in both modes:
+    this was false of the unrepaired adapter for every r2 ≠ r1 (D12: 1.5 became 0.1875) -/
+theorem C15_fixpnt_resize_widen_value (hw : 0 < w) (hn1 : 0 < n1) (hr : r1 ≤ r2) (hle : n1 + (r2 - r1) ≤ n2) (hs : Canon w n1 src)
+    (sat : Bool) (prev : List Nat) :
+    ConvFixpntSpec.value n2 r2 (toNat w (resize w n1 r1 n2 r2 sat src prev)) = ConvFixpntSpec.value n1 r1 (toNat w src) := by
+  have hn2 : 0 < n2 := by omega
+  have e : resize w n1 r1 n2 r2 sat src prev = resizeM w n1 r1 n2 r2 src := by
+    unfold resize
+    simp only
+    rw [if_neg (by simp; omega)]
+  rw [e, (resize_up_spec hw hn1 hn2 hr hs).2]
+  obtain ⟨z1, z2⟩ := aligned_fits hn1 (show r1 - r2 ≤ n1 by omega) (toNat w src)
+  have ea : alignedZ n1 r1 r2 (toNat w src) = toSigned n1 (toNat w src) * ((2 ^ (r2 - r1) : Nat) : Int) := by
+    unfold alignedZ; simp only; rw [if_pos hr]
+  rw [ea] at z1 z2
+  have := BB.M2_mono (show n1 + (r2 - r1) - 1 ≤ n2 - 1 by omega)
   unfold ConvFixpntSpec.value
-  obtain ⟨h1, h2⟩ := toSigned_range hn1 (toNat w src)
-  have := BB.M2_mono (show n1 - 1 ≤ n2 - 1 by omega)
-  rw [toSigned_ofSigned_fits (by omega) (by omega) (by omega)]
+  rw [toSigned_ofSigned_fits hn2 (by omega) (by omega)]
+  have e2 : (2 : Rat) ^ r2 = 2 ^ (r2 - r1) * 2 ^ r1 := by rw [← pow_add]; congr 1; omega
+  have h2 : (2 : Rat) ^ r1 ≠ 0 := pow_ne_zero _ (by norm_num)
+  have h3 : (2 : Rat) ^ (r2 - r1) ≠ 0 := pow_ne_zero _ (by norm_num)
+  push_cast
+  rw [e2]
+  field_simp
 
-example : ConvFixpntSpec.value 20 4 (toNat 8 (resize 8 12 4 20 4 [0xe8, 0x0f] [0, 0, 0])) = ConvFixpntSpec.value 12 4 0xfe8 :=
-  C15_fixpnt_resize_widen_same_rbits_value (by decide) (by decide) (by decide) (by decide) _
+/-- … in particular with the same rbits -/
+theorem C15_fixpnt_resize_widen_same_rbits_value (hw : 0 < w) (hn1 : 0 < n1) (hle : n1 ≤ n2) (hs : Canon w n1 src) (sat : Bool)
+    (prev : List Nat) :
+    ConvFixpntSpec.value n2 r (toNat w (resize w n1 r n2 r sat src prev)) = ConvFixpntSpec.value n1 r (toNat w src) :=
+  C15_fixpnt_resize_widen_value hw hn1 (le_refl r) (by omega) hs sat prev
 
-/-- narrowing with fewer fraction bits, Modulo: `roundingMode(r1−r2)` on the two's-complement pattern, arithmetic `>>= (r1−r2)`,
-    `++` when rounding up, narrowing `assign`: the source value rounded to the nearest multiple of 2^-r2 with ties to even, then
-    wrapped into n2 bits.  `r1 − r2 < n1` excludes the full-width shift (see `C15_fixpnt_resize_narrow_fullshift_counterexample`). -/
+example : ConvFixpntSpec.value 20 4 (toNat 8 (resize 8 12 4 20 4 false [0xe8, 0x0f] [0, 0, 0])) = ConvFixpntSpec.value 12 4 0xfe8 :=
+  C15_fixpnt_resize_widen_same_rbits_value (by decide) (by decide) (by decide) (by decide) _ _
+
+-- D12's witness: fixpnt<4,1> 1.5 → fixpnt<8,4> keeps 1.5
+example : ConvFixpntSpec.value 8 4 (toNat 8 (resize 8 4 1 8 4 false [0x3] [0xff])) = ConvFixpntSpec.value 4 1 0x3 :=
+  C15_fixpnt_resize_widen_value (by decide) (by decide) (by decide) (by decide) (by decide) _ _
+
+/-- C15 "widening followed by narrowing back returns the original value": convert to any configuration with at least as many
+    fraction bits and room for them, convert back — the original encoding, limb for limb, in both modes, whatever the two targets
+    held before.  (`C15_fixpnt_Supported w n2`: the way back rounds in a block of n2 bits.) -/
+theorem C15_fixpnt_widen_narrow_roundtrip (h : C15_fixpnt_Supported w n2) (hn1 : 0 < n1) (hr : r1 ≤ r2) (hr2 : r2 ≤ n2)
+    (hle : n1 + (r2 - r1) ≤ n2) (hs : Canon w n1 src) (sat : Bool) (prev prev' : List Nat) :
+    resize w n2 r2 n1 r1 sat (resize w n1 r1 n2 r2 sat src prev) prev' = src := by
+  have hw := h.1
+  have hn2 : 0 < n2 := by omega
+  have hwide : wideWidth n2 r2 r1 = n2 := by
+    unfold wideWidth rawWidth
+    rw [if_neg (by omega)]
+    omega
+  have hup : wideWidth n1 r1 r2 = n1 + (r2 - r1) := by
+    unfold wideWidth rawWidth
+    rw [if_neg (by omega)]
+    omega
+  -- the way up is exact …
+  have e : resize w n1 r1 n2 r2 sat src prev = resizeM w n1 r1 n2 r2 src := by
+    unfold resize
+    simp only
+    rw [if_neg (by simp; omega)]
+  obtain ⟨c1, v1⟩ := resize_up_spec hw hn1 hn2 hr hs
+  rw [← e] at c1 v1
+  obtain ⟨z1, z2⟩ := aligned_fits hn1 (show r1 - r2 ≤ n1 by omega) (toNat w src)
+  have ea : alignedZ n1 r1 r2 (toNat w src) = toSigned n1 (toNat w src) * ((2 ^ (r2 - r1) : Nat) : Int) := by
+    unfold alignedZ; simp only; rw [if_pos hr]
+  rw [ea] at z1 z2
+  have hmono := BB.M2_mono (show n1 + (r2 - r1) - 1 ≤ n2 - 1 by omega)
+  have hX : toSigned n2 (toNat w (resize w n1 r1 n2 r2 sat src prev)) = toSigned n1 (toNat w src) * ((2 ^ (r2 - r1) : Nat) : Int) := by
+    rw [v1]; exact toSigned_ofSigned_fits hn2 (by omega) (by omega)
+  -- … and the way back divides it out again
+  obtain ⟨c2, v2⟩ := resize_spec (n1 := n2) (r1 := r2) (n2 := n1) (r2 := r1) hw hn2 hn1 (by omega) (by rw [hwide]; exact h.2) sat c1 prev'
+  apply toNat_inj c2.2.1 hs.2.1 (by rw [c2.1, hs.1])
+  rw [v2, spec_eq_aligned]
+  have hD : (0 : Int) < ((2 ^ (r2 - r1) : Nat) : Int) := by exact_mod_cast Nat.two_pow_pos _
+  have hal : alignedZ n2 r2 r1 (toNat w (resize w n1 r1 n2 r2 sat src prev)) = toSigned n1 (toNat w src) := by
+    unfold alignedZ
+    simp only
+    rw [hX]
+    by_cases heq : r2 ≤ r1
+    · rw [if_pos heq, show r2 - r1 = 0 by omega, show r1 - r2 = 0 by omega]
+      simp
+    · rw [if_neg heq, Int.mul_ediv_cancel _ (ne_of_gt hD), Int.mul_emod_left]
+      unfold rneInc
+      rw [if_neg (by omega)]
+      simp
+  rw [hal]
+  obtain ⟨x1, x2⟩ := toSigned_range hn1 (toNat w src)
+  unfold FixpntSpec.finish
+  cases sat
+  · simp only [Bool.false_eq_true, if_false]
+    exact ofSigned_toSigned_of_lt hs.2.2
+  · simp only [if_true]
+    rw [clamp_of_range x1 x2]
+    exact ofSigned_toSigned_of_lt hs.2.2
+
+-- fixpnt<12,4,Saturate,uint8_t> −1.5 → fixpnt<24,10,Saturate,uint8_t> → back
+example : resize 8 24 10 12 4 true (resize 8 12 4 24 10 true [0xe8, 0x0f] [0, 0, 0]) [0xff, 0x0f] = [0xe8, 0x0f] :=
+  C15_fixpnt_widen_narrow_roundtrip ⟨by decide, Or.inl (by decide)⟩ (by decide) (by decide) (by decide) (by decide) (by decide) _ _ _
+
+/-- narrowing with fewer fraction bits, Modulo (unchanged statement, it held of the unrepaired adapter): `roundingMode(r1−r2)` on
+    the two's-complement pattern, arithmetic `>>= (r1−r2)`, `++` when rounding up, narrowing `assign`: the source value rounded to the
+    nearest multiple of 2^-r2 with ties to even, then wrapped into n2 bits.  (With r1 − r2 < n1 the repaired code still rounds in a
+    block of n1 bits; r1 − r2 = n1 is covered by `C15_fixpnt_resize_full`.) -/
 theorem C15_fixpnt_resize_narrow_modulo (h : C15_fixpnt_Supported w n1) (hn2 : 0 < n2) (hlt : n2 < n1) (hr : r2 < r1)
     (hd : r1 - r2 < n1) (hs : Canon w n1 src) (prev : List Nat) :
-    Canon w n2 (resize w n1 r1 n2 r2 src prev) ∧
-    toNat w (resize w n1 r1 n2 r2 src prev) = ConvFixpntSpec.resize n1 r1 n2 r2 false (toNat w src) :=
-  resize_narrow_spec h.1 hn2 hlt hr hd h.2 hs prev
+    Canon w n2 (resize w n1 r1 n2 r2 false src prev) ∧
+    toNat w (resize w n1 r1 n2 r2 false src prev) = ConvFixpntSpec.resize n1 r1 n2 r2 false (toNat w src) := by
+  have hwide : wideWidth n1 r1 r2 = n1 := by
+    unfold wideWidth rawWidth
+    rw [if_neg (by omega)]
+    omega
+  exact resize_spec h.1 (by omega) hn2 (by omega) (by rw [hwide]; exact h.2) false hs prev
 
 -- fixpnt<12,6,Modulo,uint8_t> → fixpnt<7,2,Modulo,uint8_t>:
 --   0x068 = 1.625 is a tie between 1.5 (raw 6) and 1.75 (raw 7) → even: 6;  0x078 = 1.875 a tie between 7 and 8 → 8
 --   0xf98 = −1.625 → −6 = 0x7a;  0x7ff = 31.98… rounds to raw 128 which wraps to 0
 example : C15_fixpnt_Supported 8 12 ∧ Canon 8 12 [0x68, 0x00] ∧ (6 : Nat) - 2 < 12 := ⟨⟨by decide, Or.inl (by decide)⟩, by decide, by decide⟩
-example : resize 8 12 6 7 2 [0x68, 0x00] [0] = [0x06] := by decide
-example : resize 8 12 6 7 2 [0x78, 0x00] [0] = [0x08] := by decide
-example : resize 8 12 6 7 2 [0x98, 0x0f] [0] = [0x7a] := by decide
-example : resize 8 12 6 7 2 [0xff, 0x07] [0] = [0x00] := by decide
+example : resize 8 12 6 7 2 false [0x68, 0x00] [0] = [0x06] := by decide
+example : resize 8 12 6 7 2 false [0x78, 0x00] [0] = [0x08] := by decide
+example : resize 8 12 6 7 2 false [0x98, 0x0f] [0] = [0x7a] := by decide
+example : resize 8 12 6 7 2 false [0xff, 0x07] [0] = [0x00] := by decide
+-- … and a Saturate target clamps 31.98… to maxpos 0x3f, −32 to maxneg 0x40
+example : resize 8 12 6 7 2 true [0xff, 0x07] [0] = [0x3f] := by decide
+example : resize 8 12 6 7 2 true [0x00, 0x08] [0] = [0x40] := by decide
 
-/-- the full property: for every pair of configurations and both modes the adapter returns the specified encoding -/
-def C15_fixpnt_resize_full : Prop :=
-  ∀ (w n1 r1 n2 r2 : Nat) (sat : Bool) (src prev : List Nat),
-    C15_fixpnt_Supported w n1 → 0 < n1 → 0 < n2 → r1 ≤ n1 → r2 ≤ n2 → Canon w n1 src → Canon w n2 prev →
-    toNat w (resize w n1 r1 n2 r2 src prev) = ConvFixpntSpec.resize n1 r1 n2 r2 sat (toNat w src)
+/-- Saturate narrowing (was `…_narrow_saturate_partial`, restricted to sources whose rounded value fits the target): the source
+    value rounded to the nearest multiple of 2^-r2, ties to even, then CLAMPED to [maxneg, maxpos] — every source -/
+theorem C15_fixpnt_resize_narrow_saturate (h : C15_fixpnt_Supported w n1) (hn2 : 0 < n2) (hlt : n2 < n1) (hr : r2 < r1)
+    (hd : r1 - r2 < n1) (hs : Canon w n1 src) (prev : List Nat) :
+    Canon w n2 (resize w n1 r1 n2 r2 true src prev) ∧
+    toNat w (resize w n1 r1 n2 r2 true src prev) = ConvFixpntSpec.resize n1 r1 n2 r2 true (toNat w src) := by
+  have hwide : wideWidth n1 r1 r2 = n1 := by
+    unfold wideWidth rawWidth
+    rw [if_neg (by omega)]
+    omega
+  exact resize_spec h.1 (by omega) hn2 (by omega) (by rw [hwide]; exact h.2) true hs prev
 
-/-- D12: widening copies the raw bits and ignores the change of rbits.  fixpnt<4,1> 0x3 (= 1.5) → fixpnt<8,4> on uint8_t:
-    the adapter returns 0x03 (= 0.1875), the specified encoding is 0x18 (in both modes).  So the round trip through the adapter
-    (widen to more fraction bits, narrow back) is not the identity either, and the full property is false. -/
-theorem C15_fixpnt_resize_D12_counterexample : ¬ C15_fixpnt_resize_full := by
-  intro h
-  have := h 8 4 1 8 4 false [0x3] [0x0] ⟨by decide, Or.inl (by decide)⟩ (by decide) (by decide) (by decide) (by decide)
-    (by decide) (by decide)
-  rw [spec_resize_eq] at this
-  revert this
-  decide
+example : C15_fixpnt_Supported 8 8 ∧ Canon 8 8 [0x7f] ∧ (4 : Nat) - 2 < 8 := ⟨⟨by decide, Or.inl (by decide)⟩, by decide, by decide⟩
 
-theorem C15_fixpnt_resize_widen_rawcopy_counterexample :
-    resize 8 4 1 8 4 [0x3] [0x0] = [0x03] ∧ resizeZ 4 1 8 4 false 0x3 = 0x18 ∧ resizeZ 4 1 8 4 true 0x3 = 0x18 := by decide
+/-! ### the former counterexamples, now positive: the repaired adapter returns the specified encoding at the recorded witnesses -/
 
-/-- narrowing to at least as many fraction bits (`r1 > r2` is false) does nothing: the target keeps its previous content.
-    fixpnt<8,4> 0x18 (= 1.5) → fixpnt<4,4> holding 0x5, and → fixpnt<4,6>: the result is 0x5; the specification wraps 1.5·2^4 = 24
-    into 4 bits (0x8), resp. 1.5·2^6 = 96 (0x0) -/
-theorem C15_fixpnt_resize_narrow_noop_counterexample :
-    resize 8 8 4 4 4 [0x18] [0x5] = [0x5] ∧ resizeZ 8 4 4 4 false 0x18 = 0x8 ∧
-    resize 8 8 4 4 6 [0x18] [0x5] = [0x5] ∧ resizeZ 8 4 4 6 false 0x18 = 0x0 := by decide
+/-- D12's witness (was `C15_fixpnt_resize_D12_counterexample` / `…_widen_rawcopy_counterexample`): fixpnt<4,1> 0x3 (= 1.5) →
+    fixpnt<8,4> on uint8_t is 0x18 (= 1.5) in both modes; the unrepaired adapter copied the raw bits (0x03 = 0.1875) -/
+theorem C15_fixpnt_resize_D12_witness :
+    resize 8 4 1 8 4 false [0x3] [0x0] = [0x18] ∧ resizeZ 4 1 8 4 false 0x3 = 0x18 ∧
+    resize 8 4 1 8 4 true [0x3] [0x0] = [0x18] ∧ resizeZ 4 1 8 4 true 0x3 = 0x18 := by decide
 
-/-- … for EVERY source and previous content -/
-theorem C15_fixpnt_resize_narrow_noop (hlt : n2 < n1) (hr : r1 ≤ r2) (prev : List Nat) : resize w n1 r1 n2 r2 src prev = prev := by
-  unfold resize
-  rw [if_neg (by omega), if_neg (by omega)]
+/-- widening to FEWER fraction bits (the code that sat inside `#ifdef TODO`): fixpnt<6,3> 0x0d (= 1.625) → fixpnt<8,2>: a tie between
+    raw 6 and 7 → 6;  0x33 (= −1.625) → raw −6 = 0xfa -/
+theorem C15_fixpnt_resize_widen_round_witness :
+    resize 8 6 3 8 2 false [0x0d] [0x0] = [0x06] ∧ resizeZ 6 3 8 2 false 0x0d = 0x06 ∧
+    resize 8 6 3 8 2 false [0x33] [0x0] = [0xfa] ∧ resizeZ 6 3 8 2 false 0x33 = 0xfa := by decide
 
-/-- narrowing by the full width: fixpnt<8,8> 0xE0 (= −0.125) → fixpnt<4,0>.  `>>= 8` of an 8-bit blockbinary returns 0 for every
-    value (no sign fill), `roundingMode(8)` reads bit 7 as guard and says "up": the result is +1; the specification is 0 -/
-theorem C15_fixpnt_resize_narrow_fullshift_counterexample :
-    resize 8 8 8 4 0 [0xE0] [0x0] = [0x1] ∧ resizeZ 8 8 4 0 false 0xE0 = 0x0 ∧ resizeZ 8 8 4 0 true 0xE0 = 0x0 := by decide
+/-- narrowing to at least as many fraction bits (was `…_narrow_noop_counterexample`; the unrepaired adapter assigned nothing and the
+    target kept 0x5): fixpnt<8,4> 0x18 (= 1.5) → fixpnt<4,4> is 1.5·2^4 = 24 wrapped into 4 bits (0x8), → fixpnt<4,6> is 96 wrapped (0x0);
+    a Saturate target holds maxpos 0x7 -/
+theorem C15_fixpnt_resize_narrow_noop_witness :
+    resize 8 8 4 4 4 false [0x18] [0x5] = [0x8] ∧ resizeZ 8 4 4 4 false 0x18 = 0x8 ∧
+    resize 8 8 4 4 6 false [0x18] [0x5] = [0x0] ∧ resizeZ 8 4 4 6 false 0x18 = 0x0 ∧
+    resize 8 8 4 4 4 true [0x18] [0x5] = [0x7] ∧ resizeZ 8 4 4 4 true 0x18 = 0x7 := by decide
 
-/-- a Saturate target never clamps: fixpnt<8,4> 0x7f (= 7.9375) → fixpnt<6,2,Saturate> (maxpos = 7.75 = 0x1f): the rounded raw
-    integer 32 wraps to 0x20 = maxneg (−8); the specification clamps to 0x1f -/
-theorem C15_fixpnt_resize_saturate_wraps_counterexample :
-    resize 8 8 4 6 2 [0x7f] [0x0] = [0x20] ∧ resizeZ 8 4 6 2 true 0x7f = 0x1f ∧ resizeZ 8 4 6 2 false 0x7f = 0x20 := by decide
+/-- narrowing by the full width (was `…_narrow_fullshift_counterexample`, result +1): fixpnt<8,8> 0xE0 (= −0.125) → fixpnt<4,0> is 0;
+    the rounding runs in a 9-bit block, `>>= 8` keeps the sign (−1), `roundingMode(8)` reads the sign-extension bit as lsb and rounds
+    up: −1 + 1 = 0.  0x80 (= −0.5, the tie) → 0 as well; two limbs on uint8_t. -/
+theorem C15_fixpnt_resize_narrow_fullshift_witness :
+    resize 8 8 8 4 0 false [0xE0] [0x0] = [0x0] ∧ resizeZ 8 8 4 0 false 0xE0 = 0x0 ∧ resizeZ 8 8 4 0 true 0xE0 = 0x0 ∧
+    resize 8 8 8 4 0 false [0x80] [0x0] = [0x0] ∧ resizeZ 8 8 4 0 false 0x80 = 0x0 ∧
+    resize 8 8 8 16 0 true [0xE0] [0x0, 0x0] = [0x0, 0x0] := by decide
 
-/-- `resizeZ` in the counterexamples above IS the specification (`ConvFixpntSpec.resize`, stated on Rat) -/
+/-- … for EVERY source: a value whose bits are all fraction bits lies in [−1/2, 1/2) and rounds (ties to even) to 0 -/
+theorem C15_fixpnt_resize_fullshift_zero (h : C15_fixpnt_Supported w (n1 + 1)) (hn1 : 0 < n1) (hn2 : 0 < n2) (hs : Canon w n1 src)
+    (sat : Bool) (prev : List Nat) :
+    toNat w (resize w n1 n1 n2 0 sat src prev) = 0 := by
+  have hwide : wideWidth n1 n1 0 = n1 + 1 := by
+    unfold wideWidth rawWidth
+    rw [if_pos (by omega)]
+    omega
+  rw [(resize_spec h.1 hn1 hn2 (by omega) (by rw [hwide]; exact h.2) sat hs prev).2, spec_eq_aligned]
+  have hz : alignedZ n1 n1 0 (toNat w src) = 0 := by
+    unfold alignedZ
+    simp only
+    rw [if_neg (by omega)]
+    obtain ⟨x1, x2⟩ := toSigned_range hn1 (toNat w src)
+    have hD : (0 : Int) < ((2 ^ (n1 - 0) : Nat) : Int) := by exact_mod_cast Nat.two_pow_pos _
+    have hDM : ((2 ^ (n1 - 0) : Nat) : Int) = 2 * M2 (n1 - 1) := by
+      rw [Nat.sub_zero]
+      have := M2_succ (n1 - 1); rwa [Nat.sub_add_cancel hn1] at this
+    exact rne_drop_all hD (by omega) (by omega)
+  rw [hz]
+  unfold FixpntSpec.finish FixpntSpec.clamp FixpntSpec.maxposZ FixpntSpec.maxnegZ
+  have hp : (0 : Int) < ((2 ^ (n2 - 1) : Nat) : Int) := by exact_mod_cast Nat.two_pow_pos _
+  cases sat
+  · simp [ofSigned]
+  · simp only [if_true]
+    rw [if_neg (by omega), if_neg (by omega)]
+    simp [ofSigned]
+
+example : C15_fixpnt_Supported 32 (32 + 1) ∧ Canon 32 32 [0xe0000000] := ⟨⟨by decide, Or.inl (by decide)⟩, by decide⟩
+
+/-- a Saturate target clamps (was `…_saturate_wraps_counterexample`, result 0x20 = maxneg): fixpnt<8,4> 0x7f (= 7.9375) →
+    fixpnt<6,2,Saturate> is maxpos 0x1f (7.75), 0x80 (= −8) → maxneg 0x20; Modulo still wraps the rounded raw integer 32 to 0x20 -/
+theorem C15_fixpnt_resize_saturate_witness :
+    resize 8 8 4 6 2 true [0x7f] [0x0] = [0x1f] ∧ resizeZ 8 4 6 2 true 0x7f = 0x1f ∧
+    resize 8 8 4 6 2 true [0x80] [0x0] = [0x20] ∧ resizeZ 8 4 6 2 true 0x80 = 0x20 ∧
+    resize 8 8 4 6 2 false [0x7f] [0x0] = [0x20] ∧ resizeZ 8 4 6 2 false 0x7f = 0x20 := by decide
+
+/-- `resizeZ` in the witnesses above IS the specification (`ConvFixpntSpec.resize`, stated on Rat) -/
 theorem C15_fixpnt_resize_spec_int (n1 r1 n2 r2 : Nat) (sat : Bool) (p : Nat) :
     ConvFixpntSpec.resize n1 r1 n2 r2 sat p = resizeZ n1 r1 n2 r2 sat p := spec_resize_eq n1 r1 n2 r2 sat p
-
-/-- Saturate narrowing, the part that holds: whenever the rounded value fits the target the Modulo result is the Saturate
-    specification as well -/
-theorem C15_fixpnt_resize_narrow_saturate_partial (h : C15_fixpnt_Supported w n1) (hn2 : 0 < n2) (hlt : n2 < n1) (hr : r2 < r1)
-    (hd : r1 - r2 < n1) (hs : Canon w n1 src) (prev : List Nat)
-    (hfit : ConvFixpntSpec.resize n1 r1 n2 r2 true (toNat w src) = ConvFixpntSpec.resize n1 r1 n2 r2 false (toNat w src)) :
-    toNat w (resize w n1 r1 n2 r2 src prev) = ConvFixpntSpec.resize n1 r1 n2 r2 true (toNat w src) := by
-  rw [hfit]; exact (C15_fixpnt_resize_narrow_modulo h hn2 hlt hr hd hs prev).2
-
-example : ConvFixpntSpec.resize 12 6 7 2 true 0x068 = ConvFixpntSpec.resize 12 6 7 2 false 0x068 := by
-  rw [spec_resize_eq, spec_resize_eq]; decide
-
-/-- the two regions in which the size adapter is right, in one statement (Modulo): widening with the same number of fraction
-    bits, and narrowing to fewer fraction bits (not by the full width) — the complement is D12 and its neighbours above -/
-theorem C15_fixpnt_resize_partial (h : C15_fixpnt_Supported w n1) (hn1 : 0 < n1) (hn2 : 0 < n2) (hs : Canon w n1 src) (prev : List Nat)
-    (hreg : (n1 ≤ n2 ∧ r1 = r2) ∨ (n2 < n1 ∧ r2 < r1 ∧ r1 - r2 < n1)) :
-    Canon w n2 (resize w n1 r1 n2 r2 src prev) ∧
-    toNat w (resize w n1 r1 n2 r2 src prev) = ConvFixpntSpec.resize n1 r1 n2 r2 false (toNat w src) := by
-  rcases hreg with ⟨hle, rfl⟩ | ⟨hlt, hr, hd⟩
-  · exact C15_fixpnt_resize_widen_same_rbits h.1 hn1 hle hs false prev
-  · exact C15_fixpnt_resize_narrow_modulo h hn2 hlt hr hd hs prev
-
-example : (12 ≤ 20 ∧ 4 = 4) ∨ (20 < 12 ∧ 4 < 4 ∧ 4 - 4 < 12) := Or.inl ⟨by decide, rfl⟩
